@@ -29,7 +29,11 @@ extern "C" {
 __attribute__((used, visibility("default"))) const char* __asan_default_options() {
   return "exitcode=77:detect_leaks=0:abort_on_error=0:allocator_may_return_null=1:"
          "handle_sigfpe=1:handle_abort=1:detect_stack_use_after_return=0:print_summary=1:"
-         "malloc_context_size=8:symbolize=1";
+         "malloc_context_size=8:symbolize=1:"
+         // every heap block is filled with 0xBE over its whole length (default: first 4 KiB only), so that
+         // code reading memory it never wrote behaves the same in a long-lived worker and in a fresh
+         // evaluator (uninitialised heap reads become a deterministic wrong value instead of noise)
+         "max_malloc_fill_size=1073741824:malloc_fill_byte=190";
 }
 __attribute__((used, visibility("default"))) const char* __ubsan_default_options() {
   return "halt_on_error=1:exitcode=77:print_stacktrace=1";
@@ -778,7 +782,7 @@ static Outcome eval_forked(const TapeSpec& spec, bool verbose, double timeout_s 
     unlink(errpath.c_str());
     exit(2);
   } else {
-    std::string err = read_file_head(errpath, 64 * 1024);
+    std::string err = read_file_head(errpath, 4 << 20);
     o = Outcome();
     o.kind = Outcome::CRASH;
     classify_death(status, err, o.cls, o.msg);
